@@ -22,6 +22,57 @@ func init() {
 
 func c19Case(c *core.Ctx, r *core.RNG, size, count, red int, erasure bool) {
 	data := r.Bytes(size * count)
+	if r.Chance(1, 5) {
+		// firmware images are not random: zero padding at the end, runs of one byte, fragments that are equal
+		// to one another, fragments whose 32- / 64-bit words add up or XOR to zero (anything that looks
+		// "empty" to a checksum but is not)
+		switch r.Intn(6) {
+		case 0:
+			for i := len(data) - 1 - r.Intn(size+1); i >= 0 && i < len(data); i++ {
+				data[i] = 0
+			}
+		case 1:
+			for i := range data {
+				data[i] = data[0]
+			}
+		case 2:
+			if count > 1 {
+				copy(data[size:2*size], data[:size])
+			}
+		case 3:
+			f := r.Intn(count)
+			frag := data[f*size : (f+1)*size]
+			for w := 8; w <= len(frag)/2; w *= 2 {
+				if len(frag)%(2*w) == 0 || w == 8 && len(frag) >= 16 {
+					// second half-word block = two's complement of the first: the words sum to zero
+					var carry uint16 = 1
+					for i := 0; i < w && w+i < len(frag); i++ {
+						v := uint16(^frag[i]) + carry
+						frag[w+i] = byte(v)
+						carry = v >> 8
+					}
+					for i := 2 * w; i < len(frag); i++ {
+						frag[i] = 0
+					}
+					break
+				}
+			}
+		case 4:
+			f := r.Intn(count)
+			frag := data[f*size : (f+1)*size]
+			for i := range frag {
+				frag[i] = 0
+			}
+			if size >= 16 {
+				frag[7], frag[15] = 0x80, 0x80 // two 64-bit words of 2^63: sum 0 mod 2^64, XOR 0
+			}
+		default:
+			for i := range data {
+				data[i] = 0
+			}
+			data[r.Intn(len(data))] = 1 << uint(r.Intn(8))
+		}
+	}
 	orig := append([]byte{}, data...)
 	var rows [][]byte
 	var err error
